@@ -42,6 +42,9 @@ def run(ctx):
     def judge(kind, recv_name, src_names, rec, before_recv, src_snaps, r_spec, s_specs, scales, r_scale):
         """The property's rules, on observations of the real objects."""
         f = lambda s: dict(x.split("=", 1) for x in s.split(" "))
+        if any("UNOBSERVABLE" in x for x in [before_recv] + list(src_snaps) + [rec["after"].get(recv_name, "")]):
+            ctx.violation(what="a waveform can no longer be observed", cell=rec["line"], observed="UNOBSERVABLE", required="a consistent waveform")
+            return
         b = f(before_recv)
         srcs = [f(x) for x in src_snaps]
         dt_ok = all(s["dtype"] == b["dtype"] for s in srcs)
